@@ -116,6 +116,8 @@ def run(ck, ctx):
     D.hashes_frozen(ck, ctx)
     # what a fresh process compares against is what was recorded: the last accepted record's deps list and hash both reach the graph
     DB.attribution(ck, ctx, rule="loaded-as-recorded")
+    from . import C18 as R18
+    R18.flags(ck, ctx)
 
 
 def run_config(ck, ctx):
